@@ -293,6 +293,45 @@ def _unroll_records(tree):
                     i += len(stores) + len(keep) - 2
 
 
+def _flag_loops(stmts):
+    """`flag = False; while not flag: BODY` where the flag is only set at the end of the body - by `flag = COND` followed by
+    `if not flag: B`, or by `if COND: flag = True [else: B]` - and read nowhere else, is
+    `while True: BODY'; if COND: break; B` (the statements after the loop then run, as before, exactly when COND held)."""
+    out = []
+    i = 0
+    while i < len(stmts):
+        s = stmts[i]
+        nxt = stmts[i + 1] if i + 1 < len(stmts) else None
+        done = False
+        if (isinstance(s, ast.Assign) and len(s.targets) == 1 and isinstance(s.targets[0], ast.Name) and isinstance(s.value, ast.Constant) and s.value.value is False
+                and isinstance(nxt, ast.While) and not nxt.orelse and isinstance(nxt.test, ast.UnaryOp) and isinstance(nxt.test.op, ast.Not) and isinstance(nxt.test.operand, ast.Name) and nxt.test.operand.id == s.targets[0].id and len(nxt.body) >= 1):
+            flag = s.targets[0].id
+            body = nxt.body
+            rest_reads = any(isinstance(x, ast.Name) and x.id == flag for r in stmts[i + 2:] for x in ast.walk(r))
+            has_break = any(isinstance(x, (ast.Break, ast.Continue)) for b in body for x in ast.walk(b))
+            new_tail = None
+            head = None
+            last = body[-1]
+            if len(body) >= 2 and isinstance(body[-2], ast.Assign) and len(body[-2].targets) == 1 and isinstance(body[-2].targets[0], ast.Name) and body[-2].targets[0].id == flag \
+                    and isinstance(last, ast.If) and not last.orelse and isinstance(last.test, ast.UnaryOp) and isinstance(last.test.op, ast.Not) and isinstance(last.test.operand, ast.Name) and last.test.operand.id == flag:
+                head, cond, B = body[:-2], body[-2].value, last.body
+                new_tail = ast.If(test=cond, body=[ast.Break()], orelse=B)
+            elif isinstance(last, ast.If) and len(last.body) == 1 and isinstance(last.body[0], ast.Assign) and len(last.body[0].targets) == 1 and isinstance(last.body[0].targets[0], ast.Name) and last.body[0].targets[0].id == flag and isinstance(last.body[0].value, ast.Constant) and last.body[0].value.value is True:
+                head, cond, B = body[:-1], last.test, last.orelse
+                new_tail = ast.If(test=cond, body=[ast.Break()], orelse=B)
+            if new_tail is not None and not rest_reads and not has_break:
+                others = [x for b in head + new_tail.orelse for x in ast.walk(b) if isinstance(x, ast.Name) and x.id == flag] + [x for x in ast.walk(new_tail.test) if isinstance(x, ast.Name) and x.id == flag]
+                if not others:
+                    w = ast.While(test=ast.Constant(value=True), body=head + [new_tail], orelse=[])
+                    out.append(ast.fix_missing_locations(ast.copy_location(w, nxt)))
+                    i += 2
+                    done = True
+        if not done:
+            out.append(s)
+            i += 1
+    return out
+
+
 def _loops_to_comprehensions(stmts):
     """`L = []` immediately followed by `for v in IT: L.append(E)` (optionally `if c: L.append(E)`) is
     `L = [E for v in IT (if c)]` when neither E, c nor IT mention L (same elements, same order, same evaluation order)."""
@@ -677,7 +716,7 @@ def _normalise_syntax(tree):
                 c.body = block(c.body)
             in_fn = True
             out.extend(one(st))
-        return _loops_to_comprehensions(out)
+        return _flag_loops(_loops_to_comprehensions(out))
 
     tree.body = block(tree.body)
     # guard clauses: `if c: ...; return a` + REST  ->  `if c: ...; return a  else: REST` (one tree shape for both spellings)
